@@ -330,9 +330,23 @@ func init() {
 	sprint := func(sep string, nl bool) intrinsic {
 		return func(fr *frame, a []value) value {
 			var sb strings.Builder
-			for i, x := range a[0].([]value) {
+			isStrArg := func(x value) bool {
+				it, ok := x.(iface)
+				if !ok {
+					return false
+				}
+				_, s1 := it.v.(string)
+				_, s2 := it.v.(*SymStr)
+				return s1 || s2
+			}
+			args := a[0].([]value)
+			for i, x := range args {
 				if i > 0 {
-					sb.WriteString(sep)
+					if nl {
+						sb.WriteString(sep)
+					} else if !isStrArg(x) && !isStrArg(args[i-1]) {
+						sb.WriteString(" ") // fmt.Sprint: space between operands when neither is a string
+					}
 				}
 				sb.WriteString(fmt.Sprint(stringify(fr, x)))
 			}
